@@ -236,6 +236,9 @@ func (ev *evaluator) eval(e Expr, at interface{ Pos() (string, int) }) Value {
 	case Eq:
 		a, b := ev.eval(e.A, at), ev.eval(e.B, at)
 		return Bool(a.K == b.K && a.Render() == b.Render())
+	case Concat:
+		a, b := ev.eval(e.A, at), ev.eval(e.B, at)
+		return Str(a.Render() + b.Render())
 	case Opaque:
 		if e.Fails {
 			ev.fail(at, true, "opaque failing expression %s", e.Src)
